@@ -24,7 +24,7 @@ from . import ux as hux
 FILL_TOKEN = -9
 JUNK_TOKEN = -7
 
-ROUTES = ("topo", "topoE", "fv", "ugrid")
+ROUTES = ("topo", "topoE", "fv", "ugrid", "ufile")
 ENCODE_AS = {"ugrid": "UGRID", "exodus": "Exodus", "scrip": "SCRIP"}
 SCRIP_NAMES = {"grid_corner_lat", "grid_corner_lon", "grid_center_lat", "grid_center_lon", "grid_imask", "grid_area", "grid_dims"}
 
@@ -102,8 +102,9 @@ def entry_xyz(entry):
     return [lattice.unit(v) for v in entry["nodes"]]
 
 
-def build_grid(entry, route):
-    """A real Grid for a mesh (catalogue entry, or {lonlat, faces}, or {file}) along one provenance route."""
+def build_grid(entry, route, scratch=None):
+    """A real Grid for a mesh (catalogue entry, or {lonlat, faces}, or {file}) along one provenance route.
+    scratch: path of a file the "ufile" route may write (a UGRID file produced by plain xarray)."""
     import xarray as xr
 
     ux = hux.import_ux()
@@ -127,7 +128,7 @@ def build_grid(entry, route):
             for j, n in enumerate(f):
                 arr[i, j] = xyz[n]
         return ux.Grid.from_face_vertices(arr, latlon=False)
-    if route == "ugrid":
+    if route in ("ugrid", "ufile"):
         ds = xr.Dataset()
         ds["node_lon"] = xr.DataArray(lon, dims=["n_node"], attrs={"standard_name": "longitude", "units": "degrees_east"})
         ds["node_lat"] = xr.DataArray(lat, dims=["n_node"], attrs={"standard_name": "latitude", "units": "degrees_north"})
@@ -147,6 +148,11 @@ def build_grid(entry, route):
                 "node_dimension": "n_node",
             },
         )
+        if route == "ufile":
+            if os.path.exists(scratch):
+                os.remove(scratch)
+            ds.to_netcdf(scratch)
+            return ux.open_grid(scratch)
         return ux.open_grid(ds)
     raise ValueError(route)
 
@@ -155,8 +161,9 @@ def build_grid(entry, route):
 class Positions:
     """Position ids = indices of the catalogue nodes (distinct directions)."""
 
-    def __init__(self, unit_vectors):
+    def __init__(self, unit_vectors, tol=1e-8):
         self.U = np.array(unit_vectors, dtype=float).reshape(-1, 3)
+        self.tol = tol
 
     def of_xyz(self, x, y, z):
         P = np.stack([np.asarray(x, float), np.asarray(y, float), np.asarray(z, float)], axis=1)
@@ -169,7 +176,7 @@ class Positions:
         for a in range(0, P.shape[0], 2048):  # blocks keep the product small for big sample meshes
             idx[a : a + 2048] = np.argmax(P[a : a + 2048] @ self.U.T, axis=1)
         chord = np.linalg.norm(P - self.U[idx], axis=1)
-        return [int(i) if (o and c < 1e-8) else -1 for i, o, c in zip(idx, ok, chord)]
+        return [int(i) if (o and c < self.tol) else -1 for i, o, c in zip(idx, ok, chord)]
 
     def of_lonlat_deg(self, lon, lat):
         lo = np.radians(np.asarray(lon, float))
@@ -233,6 +240,10 @@ def helper_vars(ds):
     """Variables of ds that carry at least one attribute netCDF cannot store."""
     out = []
     for name, var in ds.variables.items():
+        if "_FillValue" in var.attrs and "_FillValue" in var.encoding:
+            # xarray refuses to write a variable whose fill value is given twice
+            out.append("%s:_FillValue_in_attrs_and_encoding" % name)
+            continue
         for k, v in var.attrs.items():
             if isinstance(v, (str, int, float)):
                 continue
@@ -424,7 +435,7 @@ class Replayer:
 
     # -- actions
     def open(self, g):
-        self.grids[g] = build_grid(self.entries[g], self.routes[g])
+        self.grids[g] = build_grid(self.entries[g], self.routes[g], os.path.join(self.work, "t%d_src_%s.nc" % (self.t, g)))
         L = {"ev": "Open", "g": g}
         L.update(self._common(g))
         self._emit(L)
@@ -557,15 +568,23 @@ class Replayer:
                 if x.get("path") and os.path.exists(x["path"]):
                     os.remove(x["path"])
         restore_templates()
+        for g in self.grids:
+            for nm in ("t%d_src_%s.nc" % (self.t, g), "t%d_probe_%s.nc" % (self.t, g)):
+                try:
+                    self.grids[g]._ds.close()
+                    os.remove(os.path.join(self.work, nm))
+                except OSError:
+                    pass
 
 
-def source_of(entry, route):
+def source_of(entry, route, scratch=None):
     """(positions, faces of the grid as opened) from a throw-away instance: what the round trip
     has to preserve."""
-    g = build_grid(entry, route)
+    g = build_grid(entry, route, scratch)
     if route == "file":
-        lo, la = np.radians(_vals(g.node_lon)), np.radians(_vals(g.node_lat))
-        pos = Positions(np.stack([np.cos(la) * np.cos(lo), np.cos(la) * np.sin(lo), np.sin(la)], axis=1))
+        lo, la = np.radians(_vals(g.node_lon).astype(float)), np.radians(_vals(g.node_lat).astype(float))
+        # sample files store float32 coordinates: positions survive a round trip to ~1e-7 only
+        pos = Positions(np.stack([np.cos(la) * np.cos(lo), np.cos(la) * np.sin(lo), np.sin(la)], axis=1), tol=1e-6)
         return pos, grid_faces(g, pos, touch=True)
     pos = Positions(entry_xyz(entry))
     return pos, grid_faces(g, pos, touch=False)
@@ -580,7 +599,7 @@ def replay_behaviour(beh):
         beh = dict(beh)
         beh["_pos"] = {}
         for g in beh["entries"]:
-            pos, faces = source_of(beh["entries"][g], beh["routes"][g])
+            pos, faces = source_of(beh["entries"][g], beh["routes"][g], os.path.join(beh["work"], "t%d_probe_%s.nc" % (beh["t"], g)))
             if "faces" in beh["entries"][g]:
                 want = [list(f) for f in beh["entries"][g]["faces"]]
                 if [sorted(f) for f in faces] != [sorted(f) for f in want]:
